@@ -1,6 +1,6 @@
 (** * C18 — Switches and entry points are consistent and leave geometry alone.
-    Statements only; proofs in Theory/SwitchTheory.v. *)
-Require Import SB.Model.Base SB.Model.Geom SB.Model.Text SB.Model.Svg SB.Model.Lib SB.Theory.SwitchTheory.
+    Statements only; proofs in Theory/SwitchTheory.v, Theory/Xml.v and Theory/DocSafe.v. *)
+Require Import SB.Model.Base SB.Model.Geom SB.Model.Text SB.Model.Svg SB.Model.Lib SB.Theory.SwitchTheory SB.Theory.Xml SB.Theory.DocSafe.
 From Coq Require Import QArith String.
 From Coq Require Import List.
 Import ListNotations.
@@ -76,6 +76,31 @@ Theorem C18_entry_points_agree :
        match doc input default_settings with Ok d => Ok (render false 0 d) | Err e => Err e end.
 Proof.
   intros input. repeat split; reflexivity.
+Qed.
+
+(** "the compressed form is the same document without inter-element whitespace": for every
+    input both outputs are serialisations (XML 1.0 grammar of Theory/Xml.v) of trees that differ
+    only by text children that are empty or a line feed followed by blanks, i.e. by what the
+    pretty printer writes between elements; every other text, white space included, is in both *)
+Theorem C18_compressed_is_the_same_document :
+  forall input p c,
+    to_svg_string_pretty input = Ok p -> to_svg_string_compressed input = Ok c ->
+    exists xp xc, ser xp p /\ ser xc c /\ same_doc xp xc.
+Proof.
+  intros input p c Hp Hc. unfold to_svg_string_pretty, to_svg_string_compressed, to_svg_with_settings in *.
+  destruct (doc input default_settings) as [d|] eqn:D; cbn [bind] in *; [|discriminate].
+  inversion Hp; subst. inversion Hc; subst. apply render_same_doc. eapply doc_safe; eauto.
+Qed.
+Check C18_compressed_is_the_same_document :
+  forall input p c,
+    to_svg_string_pretty input = Ok p -> to_svg_string_compressed input = Ok c ->
+    exists xp xc, ser xp p /\ ser xc c /\ same_doc xp xc.
+
+(** the relation is not loose: a text element whose content is one blank is not the same
+    document as an empty one (the quoted text of one blank must survive compression) *)
+Example C18_same_doc_keeps_blank_text : forall t, ~ same_doc (XElem t [] [XText [32]]) (XElem t [] []).
+Proof.
+  intros t H. inversion H as [|? ? ? ? K]; subst. inversion K as [| | v r1 r2 W _ |]; subst. inversion W.
 Qed.
 
 Example C18_nonvacuous :
